@@ -207,6 +207,23 @@ CHECKS["C06"] = dict(
     note="Fixed fibre bodies (the property's scenario); events are checked in claim order (messageq semantics); liveness is "
          "covered as safety (nothing accepted is ever outside slot/hand/run queue) plus the exact dispatch behaviour of the "
          "replayed passes, not as a TLC temporal property.")
+# additions of session 3 (DESIGN.md section 15)
+EXTRA = {
+    "C04": " Release-style second build (-DNDEBUG -funsigned-char -O2). Plain accesses to message buffers (incl. libc block functions, wrapped) must come from the context that holds the buffer. A step-level rejection is put to the result-level specification TraceMessageQLoose before it is reported.",
+    "C05": " Rings of 2^31..2^32-1 bytes (address space only) with the indices next to the end are validated against RingBufBig.tla (indices as 16-bit halves; bounded model with small halves). Release-style second build. Result-level second opinion TraceRingBufLoose.",
+    "C06": " Both queues start at any cursor position after up to 700 earlier messages. Result-level second opinion TraceFibreIrqLoose (free alignment).",
+    "C03": " Interrupt part: as C06 (queues with a history, result-level second opinion).",
+    "C07": " Block functions (memset/memcpy/memmove) called by librfn are wrapped so that their accesses are events too.",
+    "C09": " Release-style second build; list_contains' result discarded on alternate calls.",
+    "C10": " Caller memory at every offset from an 8-byte boundary; runs of up to 66000 refused claims.",
+    "C11": " Nil- and NULL-terminated right spines; 20000-node chains on a 256 KiB stack; release-style second build. A step-level rejection (the link image in mid-iteration is the code's business) is put to the result-level specification TraceBinTreeLoose before it is reported.",
+    "C12": " Items of 2^30 bytes and more; buffers of 2^31 bytes and more through a window abstraction (TracePack `big`).",
+    "C16": " Constant signed / negative argument expressions; sign of the macros' values; release-style second build (unsigned plain char).",
+    "C20": " Burst(n) action (closed form of n logs, equal to the iteration in Mlog_mc) for 2^31+261 (thorough: 2^32+5) messages that nobody reads; every line length 0..700; '*' widths.",
+}
+for _k, _v in EXTRA.items():
+    CHECKS[_k]["note"] += _v
+
 NOT_YET = "check not built yet (work in progress; planned per DESIGN.md section 4)"
 NA = {}
 
@@ -224,6 +241,14 @@ m = {
          "serves_properties": sorted(CHECKS)},
         {"name": "tracecheck", "path": "spec/Trace*.tla", "kind_free_text": "TLC validation of ndjson traces recorded from the real code",
          "serves_properties": sorted(CHECKS)},
+        {"name": "vrt", "path": "harness/vrt.c", "kind_free_text": "interleaving runtime: librfn compiled with clang -fsanitize=thread instrumentation only, linked against our own __tsan_* entry points (and wrapped memset/memcpy/memmove); contexts are coroutines, every atomic operation (and marked plain accesses) is a switch point",
+         "serves_properties": ["C03", "C04", "C05", "C06", "C07"]},
+        {"name": "result-level-second-opinion", "path": "spec/Trace*Loose.tla", "kind_free_text": "TraceMessageQLoose / TraceRingBufLoose / TraceFibreIrqLoose / TraceBinTreeLoose: the property restated on call results alone, consulted only after a step-level rejection so that an implementation that differs at the grain of atomic operations or private links is not reported",
+         "serves_properties": ["C03", "C04", "C05", "C06", "C07", "C11"]},
+        {"name": "selftest", "path": "tools/selftest.py", "kind_free_text": "binding demonstration: every mutants/*.diff and seeded/*/patch.diff must be reported (exit 1), every benign/*/patch.diff (behaviour-preserving change) must stay quiet (exit 0); not part of any registered command",
+         "serves_properties": sorted(CHECKS)},
+        {"name": "growth-modules", "path": "tools/props/x0*.py", "kind_free_text": "specifications beyond the listed properties, same four-file pattern, ./check X01..X04: Ratelimit, Misc (regdump/enum/stats), Rgb (cross-fade, gamma), RfString",
+         "serves_properties": []},
     ],
     "checks": [],
     "notes": "see DESIGN.md; ./check <id> quick|thorough",
